@@ -18,10 +18,10 @@ import (
 const prop = "C08"
 
 type pkgProg struct {
-	files    map[string]string
-	ties     int
-	plugins  map[string]bool
-	calls    []string
+	files   map[string]string
+	ties    int
+	plugins map[string]bool
+	calls   []string
 }
 
 func pick[T any](t *rapid.T, label string, xs []T) T {
